@@ -66,19 +66,19 @@ func init() {
 		Run: func(s *kernel.Sim) { runC10(s, "C10", "firsttouch") },
 	})
 	Register(&Scenario{
-		Name: "c05_nonce_rpc_race", Property: "C05", MaxSteps: 30000, Quick: 250, Thorough: 20000,
+		Name: "c05_nonce_rpc_race", Property: "C05", MaxSteps: 30000, Quick: 250, Thorough: 20000, Race: true,
 		Doc:  "the c10 burst world judged by nonces only: copies of one signed request racing each other through the real RPC path are honoured at most once",
 		Real: worldReal, Stub: worldStub,
 		Run: func(s *kernel.Sim) { runC10(s, "C05") },
 	})
 	Register(&Scenario{
-		Name: "c07_withdraw_race", Property: "C07", MaxSteps: 30000, Quick: 300, Thorough: 20000,
+		Name: "c07_withdraw_race", Property: "C07", MaxSteps: 30000, Quick: 300, Thorough: 20000, Race: true,
 		Doc:  "two or three concurrent pool_withdraw calls of one wallet (plus keep-alives crediting it), interleaved at the balance read, inside the settlement handler and after it, with settlement failures: cumulative payments never exceed what the wallet earned plus its deposit, and the wallet is empty after a successful withdrawal that nothing followed",
 		Real: worldReal, Stub: worldStub,
 		Run: runC07Race,
 	})
 	Register(&Scenario{
-		Name: "c09_registry_race", Property: "C09", MaxSteps: 30000, Quick: 300, Thorough: 20000,
+		Name: "c09_registry_race", Property: "C09", MaxSteps: 30000, Quick: 300, Thorough: 20000, Race: true,
 		Doc:  "hosts connect, reconnect and close connections concurrently with in-flight peer requests; requests that start after a close has been processed never write to that connection, closing an old connection never unregisters the new one, and at quiescence the count of connected hosts equals the hosts whose latest registered connection is open",
 		Real: worldReal, Stub: worldStub,
 		Run: runC09Race,
@@ -999,7 +999,7 @@ func runC09Race(s *kernel.Sim) {
 
 func init() {
 	Register(&Scenario{
-		Name: "c06_refused_conc", Property: "C06", MaxSteps: 30000, Quick: 300, Thorough: 20000,
+		Name: "c06_refused_conc", Property: "C06", MaxSteps: 30000, Quick: 300, Thorough: 20000, Race: true,
 		Doc:  "the owner's own valid request (pool_withdraw of a wallet, vipnode_update of a client) arrives while one to three refused requests naming the same identity are still being refused (replayed stale nonce with a valid signature, flipped signature byte, signature by another key), interleaved at every store-operation boundary: the refused requests leave no trace, so the owner's request is carried out exactly as if they had never been sent",
 		Real: worldReal, Stub: worldStub,
 		Run: runC06Conc,
